@@ -4,6 +4,7 @@
 (* Engine.tla.  Lines of the trace:                                        *)
 (*  [ev |-> "reset", case]                                                 *)
 (*  [ev |-> "step", case, op, ret, res, again, saved,   sequential step    *)
+(*   (res/again/saved: [st, paras, hdr, tbl] projections of documents)     *)
 (*   (ret = "fatal" | "timeout": the step killed the executing process)    *)
 (*   tmod, bmod, dmod, ptmod, pbmod, pdmod, cache, probe]                  *)
 (*  [ev |-> "conc", case, mode, setup, calls, final,    one concurrent run *)
@@ -54,6 +55,8 @@ JudgeStep(e) ==
                        ELSE IF Probed(e.saved) THEN {<<"render-unsavable", op.e, e.saved.st>>} ELSE {})
                  \cup (IF e.again # e.res THEN {<<"nondeterministic", op.e>>} ELSE {})
             ELSE {})
+      \* analysis: the template rendered twice with the data the analysis asks for (res, again)
+      \cup (IF name = "Analyze" /\ e.again # e.res THEN {<<"nondeterministic", "required-data">>} ELSE {})
       \* rendering must leave the templates, their base documents and the data alone
       \cup Each("template-modified", e.tmod) \cup Each("template-modified", e.ptmod)
       \cup Each("basedoc-modified", e.bmod) \cup Each("basedoc-modified", e.pbmod)
@@ -125,7 +128,8 @@ ConcClass(e) == IF \E o \in ConcOps(e) : o.op = "Load" /\ o.def.ext # "" THEN "i
 \* which kinds of calls of different threads overlapped in real time ("sequential" if none did)
 Desc(c) == IF c.op.op = "Load" THEN "Load:" \o c.op.def.k
            ELSE IF c.op.op = "Render" THEN "Render:" \o c.op.e ELSE c.op.op
-Vocab == <<"Load:str", "Load:doc", "Render:doc", "Render:tpl", "Remove", "Clear", "Get", "Validate", "SetBasePath">>
+Vocab == <<"Load:str", "Load:doc", "Load:file", "Render:doc", "Render:tpl", "Render:rnd", "Remove", "Clear", "Get", "Validate",
+           "SetBasePath", "Analyze">>
 Overlapped(e) ==
   {Desc(e.calls[i]) : i \in {k \in 1..Len(e.calls) :
       \E j \in 1..Len(e.calls) : /\ e.calls[j].t # e.calls[k].t
